@@ -6,9 +6,10 @@
   (`buffered`, `__buffered_byte`) and the string pool the reader refers to. `readByteM` / `hasMoreDataM` are the
   code's `read_byte` / `has_more_data` statement for statement; every other read method of the class is written
   here in terms of `readByteM` exactly as the Python method is written in terms of `read_byte` (and `read_string`
-  without a pool takes its payload from the stream directly, as the code does). `PyodaProofs/C14Session.lean`
+  without a pool takes its payload from the stream directly, as the code does). `PyodaProofs/C14SessionRefine.lean`
   proves that each of them is the pure reader of `Codec/Prim.lean` applied to the ABSTRACT remaining bytes
-  `abs = buffered ++ input` (`*_refines`), and that `has_more_data` never changes `abs` (`peek_pure`).
+  `abs = buffered ++ input` (`*_refines`); `PyodaProofs/C14Session.lean` that `has_more_data` never changes `abs`
+  (`peek_pure`) and that whole sessions round-trip (`session_roundtrip`).
 
   Writer state = bytes written so far and the string pool LIST the writer refers to (shared with the caller).
   Besides the write calls a session may contain EXTERNAL pool actions — the caller clears, replaces or extends
